@@ -79,7 +79,10 @@ def isleap(y):
 def dim(y, m):
     """days in month (spec function; dual use)"""
     if isinstance(y, int) and isinstance(m, int):
-        return 29 if (m == 2 and isleap(y)) else _DIM[m]
+        # total, like the symbolic version (31 for anything that is not a 30-day month or February)
+        if m == 2:
+            return 29 if isleap(y) else 28
+        return 30 if m in (4, 6, 9, 11) else 31
     return mk_int(z_dim(y, m))
 
 
